@@ -1,24 +1,28 @@
 import Mps.Json
 import Mps.Typed
+import Mps.Commit
 import Mps.Blake3
 /- Driver side of suite `frame` (C19): digests, adversarial pairs, commit / decommit. -/
 namespace Mps.Drv.Frame
 open Lean Mps
 
+def optB (j : Json) (k : String) (f : Bytes → TVal) : TVal :=
+  match jhexOpt j k with | none => .nilv | some b => f b
+
 def parseTV (j : Json) : TVal :=
   match jstr j "t" with
-  | "bytes" => .bytes (jhexOpt j "hex")
-  | "bigint" => if jisNull j "v" then .bigint none else .bigint (some (parseSHex (jstr j "v")))
-  | "id" => .id (jhex j "hex")
-  | "ids" => if jisNull j "ids" then .ids none else
-      .ids (some ((jarr j "ids").map fun x => (ofHex (x.getStr?.toOption.getD "")).getD []))
-  | "rid" => .rid (jhexOpt j "hex")
-  | "com" => .com (jhexOpt j "hex")
-  | "decom" => .decom (jhexOpt j "hex")
+  | "bytes" => optB j "hex" .bytes
+  | "bigint" => if jisNull j "v" then .nilv else let (n, a) := parseSHex (jstr j "v"); .bigint n a
+  | "id" => if jhex j "hex" = [] then .nilv else .id (jhex j "hex")
+  | "ids" => if jisNull j "ids" then .nilv else
+      .ids ((jarr j "ids").map fun x => (ofHex (x.getStr?.toOption.getD "")).getD [])
+  | "rid" => optB j "hex" .rid
+  | "com" => optB j "hex" .com
+  | "decom" => optB j "hex" .decom
   | "thr" => .thr (jnat j "n")
   | "rnd" => .rnd (jnat j "n")
-  | "sigmsg" => .sigmsg (jhexOpt j "hex")
-  | "bwd" => .bwd (jhex j "dom") (jhexOpt j "hex")
+  | "sigmsg" => match jhexOpt j "hex" with | none => .sigmsgNil | some b => .sigmsg b
+  | "bwd" => optB j "hex" (.bwd (jhex j "dom"))
   | "point" => .point (jhex j "hex")
   | "scalar" => .scalar (jhex j "hex")
   | "ct" => .ct (jbig j "v")
@@ -40,25 +44,8 @@ def writeEach (vs : List TVal) : List Item × Int :=
       | some i => go rest (idx + 1) (i :: acc) bad
   go vs 0 [] (-1)
 
-def digest (items : List Item) : Bytes := Blake3.hashXof (transcript items) 64
-
-def allZero (b : Bytes) : Bool := b.all (· == 0)
-
-/-- `Commitment.Validate` / `Decommitment.Validate` -/
-def validLen (b : Bytes) (n : Nat) : Bool := b.length == n && !allZero b
-
-/-- model of `hash.Decommit` on a hash state that already holds `ctx` -/
-def decommit (ctx : List Item) (c d : Bytes) (vals : List TVal) : Bool :=
-  if !validLen c 64 then false
-  else if !validLen d 32 then false
-  else
-    let rec enc (vs : List TVal) (acc : List Item) : Option (List Item) :=
-      match vs with
-      | [] => some acc.reverse
-      | v :: r => match encode v with | none => none | some i => enc r (i :: acc)
-    match enc vals [] with
-    | none => false
-    | some is => digest (ctx ++ is ++ [⟨str "Decommitment", d⟩]) == c
+def H (b : Bytes) : Bytes := Blake3.hashXof b 64
+def digest (items : List Item) : Bytes := digestWith H items
 
 def handle (op : String) (inp : Json) : Json :=
   match op with
@@ -71,22 +58,21 @@ def handle (op : String) (inp : Json) : Json :=
     let (ia, ea) := writeEach a
     let (ib, eb) := writeEach b
     -- semantic identity of the two value sequences (refused values write nothing)
-    let ka := (a.filter fun v => (encode v).isSome).map canon
-    let kb := (b.filter fun v => (encode v).isSome).map canon
+    let ka := a.filter fun v => (encode v).isSome
+    let kb := b.filter fun v => (encode v).isSome
     jobj [("da", toHex (digest ia)), ("db", toHex (digest ib)),
           ("ea", Json.num (JsonNumber.fromInt ea)), ("eb", Json.num (JsonNumber.fromInt eb)),
-          ("same", decide (ka = kb))]
+          ("same", semEqList ka kb)]
   | "commit" =>
     let (ctx, _) := writeEach (parseSeq inp "ctx")
     let vals := parseSeq inp "items"
     let nonce := jhex inp "nonce"
-    if vals.any (fun v => (encode v).isNone) then jobj [("err", true)]
-    else
-      let (is, _) := writeEach vals
-      jobj [("err", false), ("c", toHex (digest (ctx ++ is ++ [⟨str "Decommitment", nonce⟩]))), ("d", toHex nonce)]
+    match commitWith H ctx vals nonce with
+    | none => jobj [("err", true)]
+    | some (c, d) => jobj [("err", false), ("c", toHex c), ("d", toHex d)]
   | "decommit" =>
     let (ctx, _) := writeEach (parseSeq inp "ctx")
-    jobj [("ok", decommit ctx (jhex inp "c") (jhex inp "d") (parseSeq inp "items"))]
+    jobj [("ok", decommitWith H ctx (jhex inp "c") (jhex inp "d") (parseSeq inp "items"))]
   | _ => jobj [("error", "unknown op")]
 
 end Mps.Drv.Frame
